@@ -7,7 +7,7 @@ ENVS = ["dflt", "d1;d2", "d1", "x", "-5", "--a=b", "-", "--", "a=b", "=", "a;b",
 
 class C03(OptCheck):
     prop = "C03"
-    vfiles = ["Properties/Properties_C03.v", "Tie/Tie_C03.v", "Tie/Tie_C04.v"]
+    vfiles = ["Properties/Properties_C03.v", "Tie/Tie_C03.v"]
     corpus = "C03.txt"
     oracle_args = ("oracle", "C03")
     design_ref = "DESIGN.md section 6, C03"
